@@ -260,7 +260,10 @@ func BuildCall(ctx context.Context, op *Op) (hrpc.Call, error) {
 				}
 			}
 		}
-		opts := append(mutOpts(op), hrpc.TimestampUint64(op.Nonce))
+		opts := mutOpts(op)
+		if !op.NoTS {
+			opts = append(opts, hrpc.TimestampUint64(op.Nonce))
+		}
 		if op.DelOne {
 			opts = append(opts, hrpc.DeleteOneVersion())
 		}
